@@ -544,8 +544,12 @@ def run_vol(case, build_pt, num, windows):
     _update_all(prog, {k: env2[k] for k in case['vol']})
     obs['ws2'] = windows(prog)
     from qupulse.plotting import _render_loop
-    rm = [[n, _fj(b), _fj(l)] for n, b, l in _render_loop(prog, render_measurements=True)[1]]
-    obs['ws2r'] = sorted(rm, key=lambda w: (str(w[0]), F(w[1]), F(w[2])))
+    try:
+        rm = [[n, _fj(b), _fj(l)] for n, b, l in _render_loop(prog, render_measurements=True)[1]]
+        obs['ws2r'] = sorted(rm, key=lambda w: (str(w[0]), F(w[1]), F(w[2])))
+    except ValueError:
+        # _render_loop builds ONE waveform first; leaves with different channel sets make that fail (see c02.run_impl)
+        obs['ws2r'] = None
     try:
         ref = pt.create_program(parameters=env2, measurement_mapping=mm)
         obs['ref'] = windows(ref) if ref is not None else []
